@@ -400,6 +400,54 @@ pub use self::hostile::Ty;
     return mods
 
 
+def primitive_alias_modules(start):
+    """primitive type names are not reserved: `type u8 = u16;` at the derive site is legal, and generated code that says `u8` for "a byte"
+    (the unions' byte views) would read the wrong number of bytes"""
+    body = '''use crate::support::dbg::*;
+pub mod hostile {
+    #![allow(non_camel_case_types, dead_code)]
+    pub type u8 = ::core::primitive::u16;
+    pub type usize = ::core::primitive::u16;
+    pub type bool = ::core::primitive::u32;
+    use educe::Educe;
+    #[derive(Educe)]
+    #[educe(Debug(unsafe), PartialEq(unsafe), Eq, Hash(unsafe), Copy, Clone)]
+    pub union Un { pub a: [::core::primitive::u8; 2], pub b: ::core::primitive::u16 }
+    #[derive(Educe)]
+    #[educe(Debug, Clone, PartialEq, Eq, PartialOrd, Ord, Hash, Default)]
+    pub struct St { pub a: ::core::primitive::u8, pub b: ::core::primitive::bool }
+    #[derive(Educe)]
+    #[educe(Debug(name = true), Clone, PartialEq, Eq, PartialOrd, Ord, Hash)]
+    pub enum En { A(::core::primitive::u8), B { x: ::core::primitive::u16 }, C }
+}
+pub use self::hostile::{Un, St, En};
+'''
+    h = Harness('h_prim_alias', unwind=40, covers=['reached'])
+    body += h.attrs() + '''pub fn h_prim_alias() {
+    let (p, q, r, s): (u8, u8, u8, u8) = (kani::any(), kani::any(), kani::any(), kani::any());
+    let arr = [Un { a: [p, q] }, Un { a: [r, s] }];
+    kani::cover!(true, "reached");
+    assert!((arr[0] == arr[1]) == ((p, q) == (r, s)), "union == with a shadowed `u8`");
+    let mut want = Rec::new();
+    core::hash::Hash::hash(&[p, q][..], &mut want);
+    assert!(rec_of(&arr[0]).same(&want), "union hash with a shadowed `u8`");
+    let a = St { a: p, b: q & 1 == 1 };
+    let b = St { a: r, b: s & 1 == 1 };
+    assert!((a == b) == ((p, q & 1) == (r, s & 1)) && Ord::cmp(&a, &b) == (p, q & 1).cmp(&(r, s & 1)));
+    let e = if p & 1 == 1 { En::A(q) } else { En::B { x: r as u16 } };
+    assert!(Clone::clone(&e) == e && (Ord::cmp(&e, &En::C) == Ordering::Less));
+    let x = Un { a: [1, 2] };
+    let (b1, r1) = render(&x, false);
+    let wantb = b"Un([1, 2])";
+    assert!(r1.is_ok() && !b1.overflow && b1.n == wantb.len(), "union Debug with a shadowed `u8` (length)");
+    let mut i = 0;
+    while i < wantb.len() { assert!(b1.b[i] == wantb[i], "union Debug with a shadowed `u8`"); i += 1; }
+}
+'''
+    return [Module(f'm{start:04d}', 'primitive type names aliased at the derive site (`type u8 = u16; type usize = u16; type bool = u32;`): union byte views, struct, enum', body, [h],
+                   sample=dict(alias='type u8 = u16'), functions=FUNCTIONS)]
+
+
 def prelude_typed_field_modules(start):
     """fields whose *types* are the prelude items the generated code itself mentions (Result, Option, Ordering, PhantomData): an import or
     alias introduced inside the generated body (`use ::core::fmt::Result;`) would capture the user's type"""
@@ -680,6 +728,8 @@ def gen(tier, seed):
     mods += field_type_inherent_modules(n)
     n = len(mods)
     mods += named_type_modules(n, upper)
+    n = len(mods)
+    mods += primitive_alias_modules(n)
     n = len(mods)
     mods += generic_modules(n, upper)
     for m in mods:
